@@ -112,7 +112,10 @@ class StubAligner:
                 row = AlignmentResultRow([seg], query.moleculeId, reference.moleculeId, query.length, reference.length,
                                          0, 0, reference.positions[0], reference.positions[0], isReverse, conf)
             else:
-                row = AlignmentResultRow([], query.moleculeId, reference.moleculeId, query.length, reference.length, 0, 0, 0, 0,
+                # shape of what the real Aligner.align returns when no segment qualifies: one placeholder empty segment for a non-empty
+                # peak list (truthy `segments`, no pairs), no segment at all for an empty peak list
+                placeholder = [AlignmentSegment.create([], peaks[0], [])] if peaks else []
+                row = AlignmentResultRow(placeholder, query.moleculeId, reference.moleculeId, query.length, reference.length, 0, 0, 0, 0,
                                          isReverse, conf if peaks else 0.)
             w.rows[key] = row
         w.calls.append((query.moleculeId, key))
